@@ -430,8 +430,8 @@ def hiddenLoop : List (Style α) → Nat → ProgM α Unit
   | [], _ => pure ()
   | cs :: rest, order =>
     if cs.isHidden then do
-      ProgM.setUnroundedLayout order (Layout.withOrder order)
       let _ ← ProgM.performChildLayout order Size.none Size.none ⟨.maxContent, .maxContent⟩ .inherentSize ⟨false, false⟩
+      ProgM.setUnroundedLayout order (Layout.withOrder order)
       hiddenLoop rest (order + 1)
     else hiddenLoop rest (order + 1)
 
